@@ -183,7 +183,37 @@ struct Slot {
     last_idx: u64,
     last_change: Instant,
     resume: usize,
+    /// CPU ticks (utime + stime of all threads) at the last watchdog inspection
+    last_cpu: u64,
+    idle_inspections: u32,
 }
+
+/// (any thread runnable?, total CPU ticks) of a process, from /proc. A blocked (deadlocked)
+/// process has no runnable thread and burns no CPU; a merely slow or starved one does.
+fn proc_activity(pid: u32) -> (bool, u64) {
+    let mut runnable = false;
+    let mut ticks = 0u64;
+    if let Ok(rd) = std::fs::read_dir(format!("/proc/{pid}/task")) {
+        for e in rd.flatten() {
+            if let Ok(stat) = std::fs::read_to_string(e.path().join("stat")) {
+                // fields after the last ')': state utime(14) stime(15) ...
+                if let Some(pos) = stat.rfind(')') {
+                    let f: Vec<&str> = stat[pos + 1..].split_whitespace().collect();
+                    if f.first().map(|s| *s == "R" || *s == "D").unwrap_or(false) {
+                        runnable = true;
+                    }
+                    let ut: u64 = f.get(11).and_then(|x| x.parse().ok()).unwrap_or(0);
+                    let st: u64 = f.get(12).and_then(|x| x.parse().ok()).unwrap_or(0);
+                    ticks += ut + st;
+                }
+            }
+        }
+    }
+    (runnable, ticks)
+}
+
+/// wall-clock limit for a case that is still burning CPU (slow, starved by load, or livelocked)
+const BUSY_LIMIT: Duration = Duration::from_secs(120);
 
 fn spawn(cli: &Cli, k: usize, kk: usize, resume: usize, dir: &str) -> Child {
     if let Ok(mut f) = std::fs::OpenOptions::new().create(true).write(true).truncate(false).open(format!("{dir}/progress.{k}")) {
@@ -217,7 +247,7 @@ fn parent_main(cli: &Cli, rep: &Report, check: &'static dyn IsoCheck) {
     std::fs::create_dir_all(&dir).expect("iso dir");
     let n = check.n_cases();
     let mut slots: Vec<Slot> = (0..kk)
-        .map(|k| Slot { k, child: spawn(cli, k, kk, 0, &dir), last_idx: u64::MAX - 1, last_change: Instant::now(), resume: 0 })
+        .map(|k| Slot { k, child: spawn(cli, k, kk, 0, &dir), last_idx: u64::MAX - 1, last_change: Instant::now(), resume: 0, last_cpu: 0, idle_inspections: 0 })
         .collect();
     let mut deaths = 0u64;
     let mut hangs = 0u64;
@@ -234,6 +264,7 @@ fn parent_main(cli: &Cli, rep: &Report, check: &'static dyn IsoCheck) {
             if idx != s.last_idx {
                 s.last_idx = idx;
                 s.last_change = Instant::now();
+                s.idle_inspections = 0;
             }
             let status = s.child.try_wait().expect("try_wait");
             let mut restart_after: Option<(usize, String, String)> = None;
@@ -266,10 +297,30 @@ fn parent_main(cli: &Cli, rep: &Report, check: &'static dyn IsoCheck) {
                 None => {
                     let limit = if idx == STARTING { STARTUP_GRACE } else { WATCHDOG };
                     if idx != u64::MAX && s.last_change.elapsed() > limit {
-                        let _ = s.child.kill();
-                        let _ = s.child.wait();
-                        restart_after = Some((idx as usize, "hang".into(), format!("no progress for {} s in one case", WATCHDOG.as_secs())));
-                        hangs += 1;
+                        // Wall time alone is load dependent. A hang is declared only when the
+                        // process is really blocked: no runnable thread and no CPU consumed over
+                        // several consecutive inspections (>= 2 s); a case that keeps burning CPU
+                        // gets the much longer busy limit (then it is a livelock / runaway).
+                        let (runnable, cpu) = proc_activity(s.child.id());
+                        if !runnable && cpu == s.last_cpu {
+                            s.idle_inspections += 1;
+                        } else {
+                            s.idle_inspections = 0;
+                        }
+                        s.last_cpu = cpu;
+                        let blocked = s.idle_inspections >= 40; // 40 polls x 50 ms
+                        let runaway = s.last_change.elapsed() > BUSY_LIMIT;
+                        if blocked || runaway {
+                            let _ = s.child.kill();
+                            let _ = s.child.wait();
+                            let what = if blocked {
+                                format!("blocked: no progress for {} s, no runnable thread, no CPU used", s.last_change.elapsed().as_secs())
+                            } else {
+                                format!("runaway: still computing after {} s in one case", BUSY_LIMIT.as_secs())
+                            };
+                            restart_after = Some((idx as usize, "hang".into(), what));
+                            hangs += 1;
+                        }
                     }
                 }
             }
@@ -281,7 +332,8 @@ fn parent_main(cli: &Cli, rep: &Report, check: &'static dyn IsoCheck) {
                 } else if case_idx < n && check.resource_heavy(case_idx) {
                     rep.add("inconclusive_resource_limit", 1);
                 } else if case_idx < n {
-                    let mut v = Violation::new(&kind, detail.split(':').next().unwrap_or("").to_string(), check.desc(case_idx)).detail(detail);
+                    let site = if kind == "hang" { detail.split(':').next().unwrap_or("").to_string() } else { detail.split(':').next().unwrap_or("").to_string() };
+                    let mut v = Violation::new(&kind, site, check.desc(case_idx)).detail(detail);
                     for (k, val) in check.attrs(case_idx) {
                         v = v.attr(&k, val);
                     }
@@ -301,6 +353,8 @@ fn parent_main(cli: &Cli, rep: &Report, check: &'static dyn IsoCheck) {
                 s.child = spawn(cli, s.k, kk, resume, &dir);
                 s.last_idx = u64::MAX - 1;
                 s.last_change = Instant::now();
+                s.idle_inspections = 0;
+                s.last_cpu = 0;
             }
         }
         if all_done {
